@@ -161,13 +161,23 @@ Theorem C06_motion_in_space_closed_form : forall ra dec dist vel ma md tm,
   = VTuple [ang (red360 (r2d (atan2 yp xp))); ang (red360 (r2d (atan (zp / sqrt (xp * xp + yp * yp)))))].
 Proof. exact motion_in_space_closed. Qed.
 
-(* orbital_equinox2equinox, general branch (inclination >= 1 degree): exact closed form (orb_out in C06_orb.v) *)
-Theorem C06_orbital_closed_form : forall j0 j1 i0 w0 o0, 1 <= i0 ->
+(* orbital_equinox2equinox, general branch -- every inclination whose magnitude is at least the Angle
+   tolerance tol0 = 1e-10 degree, retrograde orbits included: exact closed form (orb_out in C06_orb.v,
+   inclination by atan2(sqrt(A^2+B^2), C) in 0..180) *)
+Theorem C06_orbital_closed_form : forall j0 j1 i0 w0 o0, tol0 <= Rabs i0 ->
   let T := cen J2000 j0 in let t := cen j0 j1 in
   let o := orb_out (eta_as T t) (pi_as T t) (p_as T t) i0 w0 o0 in
   f_orbital_equinox2equinox Rops (ep j0) (ep j1) (ang i0) (ang w0) (ang o0)
   = VTuple [ang (fst (fst o)); ang (snd (fst o)); ang (snd o)].
 Proof. exact (fun j0 j1 i0 w0 o0 => orb_closed J2000 j0 j1 i0 w0 o0 jde2000_eq). Qed.
+
+(* ... and the zero-inclination branch: i = eta, node = Pi + p + 180 *)
+Theorem C06_orbital_zero_branch : forall j0 j1 w0 o0,
+  let T := cen J2000 j0 in let t := cen j0 j1 in
+  let o := orb_out0 (eta_as T t) (pi_as T t) (p_as T t) w0 o0 in
+  f_orbital_equinox2equinox Rops (ep j0) (ep j1) (ang 0) (ang w0) (ang o0)
+  = VTuple [ang (fst (fst o)); ang (snd (fst o)); ang (snd o)].
+Proof. exact (fun j0 j1 w0 o0 => orb_closed0 J2000 j0 j1 w0 o0 jde2000_eq). Qed.
 
 Redirect "C06_equ_closed_form.assumptions" Print Assumptions C06_equ_closed_form.
 Redirect "C06_equ_rotation.assumptions" Print Assumptions C06_equ_rotation.
@@ -185,3 +195,4 @@ Redirect "C06_obliquity.assumptions" Print Assumptions C06_obliquity.
 Redirect "C06_p_motion_closed_form.assumptions" Print Assumptions C06_p_motion_closed_form.
 Redirect "C06_motion_in_space_closed_form.assumptions" Print Assumptions C06_motion_in_space_closed_form.
 Redirect "C06_orbital_closed_form.assumptions" Print Assumptions C06_orbital_closed_form.
+Redirect "C06_orbital_zero_branch.assumptions" Print Assumptions C06_orbital_zero_branch.
